@@ -83,6 +83,10 @@ func accessesOf(fn *ssa.Function, f *types.Var) []fieldAccess {
 					}
 				case ssa.CallInstruction:
 					if o := calleeObj(r.Common()); o != nil {
+						if o.Pkg() != nil && o.Pkg().Path() == "sync/atomic" {
+							out = append(out, fieldAccess{Instr: r, Addr: x, Kind: "atomic"})
+							continue
+						}
 						as := callArgs(r.Common())
 						if len(as) > 0 && as[0] == x {
 							out = append(out, fieldAccess{Instr: r, Addr: x, Method: o.Name(), Kind: "call:" + o.Name()})
@@ -287,6 +291,11 @@ func (g *guardChecker) check(r *Result, rule string, spec GuardSpec, funcs []*ss
 				continue
 			}
 			if a.Kind == "addr-escapes" && isLockType(spec.Field.Type()) {
+				continue
+			}
+			if a.Kind == "atomic" {
+				n++
+				r.Instance(rule, ord.key(key, a.Kind, spec.FieldName), g.c.Pos(g.c.InstrPos(a.Instr)), "ok", "accessed through sync/atomic", true)
 				continue
 			}
 			n++
